@@ -1,7 +1,7 @@
 SPECIFICATION Spec
 CONSTANTS
   Names = {"a"}
-  Types = {"A", "CNAME", "NSEC"}
+  Types = {"A", "CNAME", "NSEC", "RRSIG/CNAME"}
   RdIds = {1}
   TTLs = {300}
   Filters <- MCFiltersSmall
